@@ -4,6 +4,7 @@
 package sync
 
 import (
+	"os"
 	"math/rand"
 	"runtime"
 	gosync "sync"
@@ -73,6 +74,9 @@ func TestVerifC08(t *testing.T) {
 						obs = append(obs, 3)
 						hung = true
 						out.Mon(c.id, "c08:acquire-hang", "op %d: Acquire on a free lock did not return within 2s", step)
+						out.Obs(c.id, obs)
+						out.Close()
+						os.Exit(3) // a goroutine is spinning in the assembly loop for ever: end the process
 					}
 				}
 				obs = append(obs, uint64(atomic.LoadUint32(&sl.state)))
@@ -157,8 +161,10 @@ func TestVerifC08(t *testing.T) {
 			case <-time.After(60 * time.Second):
 				out.Mon(c.id, "c08:hang", "tasks=%d iters=%d seed=%d did not finish within 60s (holders=%d sections=%d)", tasks, iters, seed, atomic.LoadInt32(&holders), atomic.LoadInt64(&sections))
 				out.Obs(c.id, []uint64{0})
-				out.Flush()
-				return // goroutines are stuck; stop here
+				out.Close()
+				// goroutines spinning in the assembly loop cannot be preempted: the process must be ended
+				// explicitly or it survives go test's own timeout and burns CPU forever
+				os.Exit(3)
 			}
 		default:
 			out.Obs(c.id, []uint64{0})
